@@ -67,6 +67,11 @@ type verifWEvent struct {
 	payload []byte
 	nonce   uint32
 	target  int
+	// family "fields" (zz_verifw_pipe_test.go): the uid travels in the nonce, the other fields take boundary values
+	seq        uint64 // ground truth of the sequence field (other families: the uid)
+	senderB    []byte // ground truth of the sender field
+	uidInNonce bool
+	txid       string // the tx id string the node reports for the event on the polling path
 }
 
 type verifWTx struct {
